@@ -229,7 +229,7 @@ def parse_bam(path, names, bxs, contents, rg_sample, ignore_rg=False):
             recs.append(dict(tid=a.reference_id, id=contents(key), name=names((skey, a.query_name)), start=a.reference_start,
                              end=endpos(a), unmapped=a.is_unmapped, secondary=a.is_secondary, suppl=a.is_supplementary, bx=bx,
                              tags=(tagval(tags, "HP"), tagval(tags, "PS"), tagval(tags, "PC")),
-                             sample=rg_sample.get(rg), qname=a.query_name, flag=a.flag, rg=rg))
+                             sample=rg_sample.get(rg), qname=a.query_name, flag=a.flag, rg=rg, other=other, core=key[:11]))
     return recs
 
 
@@ -677,6 +677,23 @@ def shared_between_samples(r):
     return any(len(v) > 1 for v in seen.values())
 
 
+def first_difference(r):
+    """human-readable reason for a conservation failure when a written record has no identical input record"""
+    known = {x["id"] for x in r["inp"]}
+    for o in r["out"]:
+        if o["id"] in known:
+            continue
+        twin = [x for x in r["inp"] if x["core"] == o["core"]]
+        if twin:
+            a, b = twin[0]["other"], o["other"]
+            if sorted(a) == sorted(b):
+                return f" [record {o['qname']}@{o['start']}: order of the other tags changed: {[t[0] for t in a]} -> {[t[0] for t in b]}]"
+            return (f" [record {o['qname']}@{o['start']}: tags other than HP/PS/PC differ (tag, type, value): "
+                    f"input-only {sorted(set(a) - set(b))[:4]} output-only {sorted(set(b) - set(a))[:4]}]")
+        return f" [record {o['qname']}@{o['start']} flag {o['flag']}: a field other than the tags differs from every input record]"
+    return ""
+
+
 def describe(c, r):
     o = c["opts"]
     return (f"regions={o['regions']} ploidy={c['ploidy']} samples={o['samples']} opts="
@@ -739,7 +756,8 @@ def report_cli(ctx, evaluated, shrink=True):
                     if "L1cons" in ev["fails"] and region_class(small, ev["res"]) == cls:
                         rep, r = small, ev["res"]
             seen.add(sig)
-            ctx.violation(sig, f"output stream is not the input stream restricted to the regions ({cls}): " + describe(rep, r),
+            ctx.violation(sig, f"output stream is not the input stream restricted to the regions ({cls}): " + describe(rep, r)
+                          + first_difference(r),
                           {"kind": "cli", "case": rep})
         if "L1tag" in fails:
             shared = shared_between_samples(r)
